@@ -12,8 +12,9 @@ import ast
 
 from ..cfg import cfg_of, literals
 from ..dataflow import Defs, atoms, calls_in, provenance, stmt_of
-from ..index import AnalysisError, call_name, dotted, enclosing, head, norm, walk_body
+from ..index import N, AnalysisError, call_name, dotted, enclosing, head, norm, walk_body
 from ..ordering import describe, evaluate, parse_pred, weak_orderings
+from ..pattern import facts_matching, find, has_fact, local_defined_as, pmatch
 from ..rules import COMPOUND, kw, node_calls, own_calls, prov_at, reaching
 from ..witness import W
 
@@ -53,7 +54,9 @@ def _mentions_len_of_element(f, text):
         for v, s_, how in d.defs.get(name, []):
             if v is not None:
                 seen.append(norm(v))
-    return any("len(c)" in t for t in seen)
+    import re as _re
+
+    return any(_re.search(r"len\((\w+)\) for \1 in ", t) for t in seen)
 
 
 # ------------------------------------------------------------------------------------ R1
@@ -95,7 +98,7 @@ def r1_validators(chk, repo):
         "Chunk.concatenate": [
             ("same data type", {".data_type"}),
             ("same run id unless allow_superrun", {".run_id", "allow_superrun"}),
-            ("in order and not overlapping", {".start", "prev_end"}),
+            ("in order and not overlapping", lambda prov, text, f: pmatch("L_c.start < L_prev", ast.parse(text, mode="eval").body) is not None),
             ("at least one chunk", {"chunks"}),
         ],
     }
@@ -114,8 +117,14 @@ def r1_validators(chk, repo):
     # concatenate: the order guard compares with the previous end, which is updated from c.end
     f = repo.func("Chunk.concatenate", CHUNK)
     cfg = cfg_of(f)
-    og = [n for n in cfg.stmt_nodes() if isinstance(n.stmt, ast.Raise) and ("c.start < prev_end", True) in cfg.guard_facts(n)]
-    upd = [n for n in walk_body(f.node) if isinstance(n, ast.Assign) and norm(n.targets[0]) == "prev_end" and norm(n.value) == "c.end"]
+    og = []
+    for n in cfg.stmt_nodes():
+        if isinstance(n.stmt, ast.Raise):
+            for e, pol, g, b in facts_matching(cfg, n, "L_c.start < L_prev", True):
+                lp = enclosing(n.stmt, (ast.For,))
+                if lp is not None and norm(lp.target) == b["L_c"] and find(lp, f"{b['L_prev']} = {b['L_c']}.end"):
+                    og.append(n)
+    upd = og
     chk.check(bool(og) and bool(upd), "C07.R1", f, None, "concatenate's order test is not `start < previous end` with the previous end taken from each chunk", site_text="Chunk.concatenate: raise if c.start < prev_end; prev_end = c.end")
     # merged / concatenated range
     for q, want in (("Chunk.concatenate", {"start": "chunks[0].start", "end": "chunks[-1].end"}),):
@@ -130,7 +139,7 @@ def r1_validators(chk, repo):
     chk.check(bool(rs) and all(("allow_early_split", False) in scfg.guard_facts(n) for n in rs), "C07.R1", sa, None, "split_array does not raise CannotSplit exactly when early splits are not allowed", site_text="split_array: raise CannotSplit iff not allow_early_split")
     for n in rs:
         outer = [g for g in scfg.dominating_guards(n) if g.test is not None and "allow_early_split" not in norm(g.test)]
-        ok = any(norm(g.test) == "splittable_i != i_first_beyond or latest_end_seen > t" and g.polarity for g in outer)
+        ok = any(pmatch("L_si != L_fb or L_les > t", g.test) is not None and g.polarity for g in outer)
         chk.check(ok, "C07.R1", sa, n.stmt, "the straddling-row condition guarding CannotSplit changed", site_text="split_array: CannotSplit under (splittable_i != i_first_beyond or latest_end_seen > t)", nontrivial=False)
     init = repo.func("Chunk.__init__", CHUNK)
     icfg = cfg_of(init)
@@ -206,8 +215,8 @@ def r2_case_split(chk, repo, rule="C07.R2"):
     pops = [c for c in calls_in(f.node) if call_name(c) == "_pop_out_empty_run_id"]
     chk.check(len(pops) == 2, rule, f, None, "zero-length run fragments are not removed from both sides", site_text="_split_runs_in_chunk: empty fragments popped on both sides", nontrivial=False)
     mc = repo.func("_mergable_check", CHUNK)
-    cmp_ = [n for n in walk_body(mc.node) if isinstance(n, ast.Compare) and "[i][0]" in norm(n) and "[i - 1][1]" in norm(n)]
-    chk.check(bool(cmp_) and all(isinstance(c.ops[0], ast.NotEq) for c in cmp_), rule, mc, None, "continuity of concatenated run fragments is not tested as start[i] != end[i-1]", site_text="_mergable_check: start[i] != end[i-1] -> raise")
+    cmp_ = [n for n, b in find(mc.node, "E_x[L_i][0] != E_x[L_i - 1][1]")]
+    chk.check(bool(cmp_), rule, mc, None, "continuity of concatenated run fragments is not tested as start[i] != end[i-1]", site_text="_mergable_check: start[i] != end[i-1] -> raise")
     so = [c for c in calls_in(mc.node) if isinstance(c.func, ast.Attribute) and c.func.attr == "sort"]
     chk.check(bool(so), rule, mc, None, "run fragments are not sorted by start before the continuity test", site_text="_mergable_check: fragments sorted by start", nontrivial=False)
 
@@ -301,15 +310,15 @@ def r4_constructors(chk, repo):
                 a = kw(c, "allow_early_split")
                 chk.check(a is not None and isinstance(a, ast.Constant) and a.value is False, "C07.R4", f, stmt_of(c), "rechunk split allows early splitting: the split time would silently move", site_text=f"{q}: split(..., allow_early_split=False)")
                 t = kw(c, "t")
-                chk.check(t is not None and "['time'][index]" in norm(t) and "DEFAULT_CHUNK_SPLIT_NS // 2" in norm(t), "C07.R4", f, stmt_of(c), "split time is not half a minimum gap before the first row of the next piece", site_text=f"{q}: t = time[index] - min_gap/2")
+                chk.check(t is not None and (pmatch("E_c.data['time'][L_i] - int(DEFAULT_CHUNK_SPLIT_NS // 2)", t) is not None or pmatch("E_c.data['time'][L_i] - int(strax.DEFAULT_CHUNK_SPLIT_NS // 2)", t) is not None), "C07.R4", f, stmt_of(c), "split time is not half a minimum gap before the first row of the next piece", site_text=f"{q}: t = time[index] - min_gap/2")
     rr = repo.func("Rechunker.receive", CHUNK)
     cc = [c for c in calls_in(rr.node) if (call_name(c) or "").endswith("Chunk.concatenate")]
     chk.check(len(cc) == 1 and norm(cc[0].args[0]) == "[self.cache, chunk]", "C07.R4", rr, None, "cached rows are not put in front of the received chunk", site_text="Rechunker.receive: concatenate([cache, chunk])")
     st = [n for n in walk_body(rr.node) if isinstance(n, ast.Assign) and norm(n.targets[0]) == "self.cache"]
     chk.check(bool(st) and all(norm(n.value) == "chunk" for n in st), "C07.R4", rr, None, "remainder after the last split is not kept for the next call", site_text="Rechunker.receive: self.cache = remainder")
     gs = repo.func("Rechunker.get_splits", CHUNK)
-    gi = Defs(gs.node).single("gap_indices")
-    chk.check(gi is not None and "strax.diff(data) > min_gap" in norm(gi) and norm(gi).endswith("+ 1"), "C07.R4", gs, None, "split candidates are not the positions after gaps larger than the minimum gap", site_text="get_splits: candidates = argwhere(diff(data) > min_gap) + 1")
+    GI, gi_assign, _b = local_defined_as(gs.node, "np.argwhere(strax.diff(data) > min_gap).flatten() + 1")
+    chk.check(GI is not None, "C07.R4", gs, None, "split candidates are not the positions after gaps larger than the minimum gap", site_text="get_splits: candidates = argwhere(diff(data) > min_gap) + 1")
 
 
 WITNESSES = [
